@@ -225,6 +225,16 @@ impl SstCursor {
     spec fn nb(&self) -> int { self.table.blocks().len() as int }
 
     // ASSUMED: partition_point over the dividers (sorted ascending by table_ok)
+//@ extract sst/src/lib.rs | impl SstCursor<W> :: fn new
+//@ ret r
+//@ rewrite-re? X4 `table: Sst<W>` => `table: Sst`
+//@ pre <<
+        table.table_ok(),
+//@ >>
+//@ post <<
+        r.wf(), r.pos() == -1, r.table == table,
+//@ >>
+//@ end
 //@ extract sst/src/lib.rs | impl SstCursor<W> :: fn seek_index
 //@ ret r
 //@ pre <<
